@@ -176,6 +176,9 @@ type famResult struct {
 	Violations int    `json:"violations"`
 }
 
+// triples: thorough tier also enumerates all deviations in exactly three fields
+var triples bool
+
 func (f *family) vectors() [][]int {
 	n := len(f.fields)
 	var out [][]int
@@ -194,6 +197,23 @@ func (f *family) vectors() [][]int {
 					v := make([]int, n)
 					v[i], v[j] = a, b
 					out = append(out, v)
+				}
+			}
+		}
+	}
+	if triples {
+		for i := 0; i < n; i++ {
+			for j := i + 1; j < n; j++ {
+				for k := j + 1; k < n; k++ {
+					for a := 1; a <= len(f.fields[i].alts); a++ {
+						for b := 1; b <= len(f.fields[j].alts); b++ {
+							for c := 1; c <= len(f.fields[k].alts); c++ {
+								v := make([]int, n)
+								v[i], v[j], v[k] = a, b, c
+								out = append(out, v)
+							}
+						}
+					}
 				}
 			}
 		}
